@@ -107,6 +107,10 @@ class Repo:
                 sigs.pop(d_, None)
             keep = {kc for mod_ in self._ref.values() if isinstance(mod_, dict) for kc in mod_.get("<kwcalls>", [])}
             qsigs = {f"{d_}.{n_.name}": [a.arg for a in n_.args.args] for d_, m_ in self.modules.items() for n_ in m_.tree.body if isinstance(n_, ast.FunctionDef)}
+            # leading parameters of the few library calls the rules read (np.zeros(shape=n) is np.zeros(n); obj.reduce(func, dim=d) is obj.reduce(func, d))
+            LIB = {"zeros": ["shape", "*"], "ones": ["shape", "*"], "empty": ["shape", "*"], "reduce": ["func", "dim", "*"], "searchsorted": ["v", "side", "*"]}
+            for k_, v_ in LIB.items():
+                sigs.setdefault(k_, v_)
             for d_, m_ in self.modules.items():
                 local = dict(sigs)
                 # names the module binds itself (own functions, `from .x import f [as g]`) resolve exactly, also when two modules define an `f`
